@@ -71,6 +71,7 @@ def run_one(spec, verify=False, props_filter=None):
         need_ws = any(props.PROPS[p][1] for p in plist if p in props.PROPS)
         try:
             crates = core.extract(repo=dst, workspace=need_ws)
+            props.normalise(crates)
         except SystemExit as e:
             return spec["name"], "invalid", "extraction failed: %s" % e, d
         fired = {}
